@@ -111,23 +111,11 @@ def _layout_lock(ctx, cl):
              for n in pi.node.body)
     ctx.shape(ok, 'LOCK', 'PLSSParser: copy_all text is not cleaned up by default')
     pp = ctx.repo.func('PLSSParser.parse')
-    conds = []
-    for n in walk_local(pp.node):
-        if isinstance(n, ast.Assign) and norm(n.targets[0]) == 'chunk_layout':
-            if norm(n.value) in ('self.layout', 'COPY_ALL'):
-                conds += [tst for tst, pol in guards(n) if pol]
-            elif isinstance(n.value, ast.IfExp) and norm(n.value.body) in ('self.layout', 'COPY_ALL'):
-                conds.append(n.value.test)
+    conds = chunk_layout_conditions(pp)
     def disjuncts(tst):
         return [norm(v) for v in tst.values] if isinstance(tst, ast.BoolOp) and isinstance(tst.op, ast.Or) else [norm(tst)]
     def mentions_copyall(c):
-        if 'COPY_ALL' in norm(c):
-            return True
-        for nm_ in [x for x in ast.walk(c) if isinstance(x, ast.Name)]:
-            pv_ = flow.provenance(pp.node, nm_)
-            if ('global', 'COPY_ALL') in pv_:
-                return True
-        return False
+        return mentions(pp, c, 'COPY_ALL')
     ok = any('self.layout == COPY_ALL' in disjuncts(c) or 'COPY_ALL == self.layout' in disjuncts(c) for c in conds) \
         or any(mentions_copyall(c) for c in conds)
     bad = bool(conds) and not any(mentions_copyall(c) for c in conds)
@@ -143,8 +131,11 @@ def _layout_lock(ctx, cl):
     ded = [n for n in walk_local(pc.node) if isinstance(n, ast.Assign) and norm(n) == 'chunk_layout = deduce_layout(chunk)']
     ok = bool(ded) and any(pol and 'chunk_layout != COPY_ALL' in norm(t) and 'not self.parent.mandate_layout' in norm(t)
                            and isinstance(t, ast.BoolOp) and isinstance(t.op, ast.And) for t, pol in guards(ded[0]))
-    gtxt = ' '.join(norm(t) for t, pol in guards(ded[0])) if ded else ''
-    ctx.tri(ok, bool(ded) and 'COPY_ALL' not in gtxt and 'mandate_layout' not in gtxt, 'LOCK',
+    gts = [t for t, pol in guards(ded[0])] if ded else []
+    m_copy = any(mentions(pc, t, 'COPY_ALL') for t in gts)
+    m_mand = any(mentions(pc, t, 'mandate_layout') for t in gts)
+    ok = ok or (m_copy and m_mand)
+    ctx.tri(ok, bool(ded) and not m_copy and not m_mand, 'LOCK',
             'parse_chunk: deduction never overrides copy_all or a mandated layout',
             detail_bad="chunk-level deduce_layout runs unguarded: a forced layout is re-deduced per chunk",
             key="LOCK|parse_chunk|deduce")
@@ -160,6 +151,31 @@ def _layout_lock(ctx, cl):
     ctx.tri(ok, 'COPY_ALL' not in seg_txt, 'LOCK', 'PLSSChunker.segment keeps copy_all text in one block',
             detail_bad="segment() no longer treats copy_all specially: a copy_all text that contains Twp/Rges is cut into chunks",
             key="LOCK|segment|copyall")
+
+
+def chunk_layout_conditions(pp):
+    """conditions under which PLSSParser.parse gives its chunk parsers a layout"""
+    conds = []
+    for n in walk_local(pp.node):
+        if isinstance(n, ast.Assign) and norm(n.targets[0]) == 'chunk_layout':
+            if norm(n.value) in ('self.layout', 'COPY_ALL'):
+                conds += [tst for tst, pol in guards(n) if pol]
+            elif isinstance(n.value, ast.IfExp) and norm(n.value.body) in ('self.layout', 'COPY_ALL'):
+                conds.append(n.value.test)
+    return conds
+
+
+def mentions(fi, test, what):
+    """the condition refers to `what` (a global / attribute name), directly or
+    through local variables"""
+    if what in norm(test):
+        return True
+    for nm_ in [x for x in ast.walk(test) if isinstance(x, ast.Name)]:
+        pv_ = flow.provenance(fi.node, nm_)
+        for a in pv_:
+            if a[0] in ('global', 'attr') and what in str(a[1]):
+                return True
+    return False
 
 
 def _once(ctx):
